@@ -370,7 +370,13 @@ func installSink(w *workerState) {
 			if w.tracing && e.Kind == "runtime" && len(w.trace) < 5000 {
 				w.trace = append(w.trace, TraceEv{Ev: "diag", Kind: kindClass(classifyDiag(e.Msg)), Ln: e.Line, Prompt: []int{}})
 			}
-			if len(w.events) < 64 {
+			nd := 0
+			for k := range w.events {
+				if w.events[k].E == "diag" {
+					nd++
+				}
+			}
+			if nd < 64 { // a cap on DIAGNOSTICS (floods of static errors), not on what was recorded before them
 				w.events = append(w.events, e)
 			}
 		case "call":
